@@ -4,7 +4,7 @@
 set -e
 cd "$(dirname "$0")/.."
 mkdir -p build evidence replays
-( cd lean && lake build bfl_driver BFL ) 
+( cd lean && lake build ) 
 python3 - <<'PY'
 import sys
 sys.path.insert(0, '.')
